@@ -602,6 +602,15 @@ def m_copy(ex, st, recv, args, kwargs, node):
     return [(st, SV(VRef(n), recv.ty))], []
 
 
+@method('dict', 'sync')
+def m_sync(ex, st, recv, args, kwargs, node):
+    """E-SHELVE: a shelve has sync() (no effect on the mapping), a plain dict raises AttributeError"""
+    has = fresh('has_sync', BoolS)
+    yes, no = ex.fork(st, has, None)
+    raises = [ex.raised(no, 'builtins:AttributeError')] if no is not None else []
+    return ([(yes, const_sv(None))] if yes is not None else []), raises
+
+
 @method('dict', 'update')
 def m_update(ex, st, recv, args, kwargs, node):
     raise Unsupported('dict.update (needs a contract-level model)')
